@@ -19,8 +19,26 @@ from .harness import Outcome, parallel_map, run_op, where
 ALLOWED = ("TypeError", "ValueError")
 
 
+THOROUGH = False
+
+
 def _cases(prog: Program, roles) -> List[Dict[str, Any]]:
     cases: List[Dict[str, Any]] = []
+    if THOROUGH:
+        # deeper partition: exact team counts and team sizes for the well-formed classes, and malformed selectors on
+        # every exact team count; malformed teams together with a well-formed selector
+        for op in PUBLIC_OPS:
+            for n in ((2, 2), (3, 3), (5, 5), (8, 8)):
+                for m in ((1, 1), (2, 2), (16, 16)):
+                    cases.append({"op": op, "teams": "teams:well-formed", "n": n, "m": m, "expect": "accept"})
+        for n in ((2, 2), (3, 3), (8, 8)):
+            for sel in ("ranks", "scores"):
+                for name, status in NUMLIST_CLASSES:
+                    cases.append({"op": "rate", "teams": "teams:well-formed", "n": n, sel: name, "expect": "reject" if status == "bad" else "accept"})
+        for name, ok in TEAMS_CLASSES:
+            if not ok:
+                for sel in ("ranks", "scores"):
+                    cases.append({"op": "rate", "teams": name, sel: "list-of-int", "expect": "reject"})
     others = [r for r in prog.roles() if r.model is not roles.model]
     for op in PUBLIC_OPS:
         for name, ok in TEAMS_CLASSES:
@@ -53,7 +71,8 @@ NPARTS = 3
 
 
 def _model_job(job) -> List[Dict[str, Any]]:
-    idx, part = job
+    global THOROUGH
+    idx, part, THOROUGH = job
     prog = Program()
     roles = prog.roles()[idx]
     by_short = {r.short: r for r in prog.roles()}
@@ -61,7 +80,9 @@ def _model_job(job) -> List[Dict[str, Any]]:
     mod = roles.model.module.name
     for case in _cases(prog, roles)[part::NPARTS]:
         op = case["op"]
-        kw = {k: case[k] for k in ("teams", "ranks", "scores") if k in case}
+        kw = {k: case[k] for k in ("teams", "ranks", "scores", "n") if k in case}
+        if "m" in case:
+            kw["msize"] = case["m"]
         if case["expect"] == "accept":
             kw.update(tau="any", limit_sigma="any")
         foreign = by_short[case["foreign"]].rating if "foreign" in case else None
@@ -173,7 +194,7 @@ def run(prog: Program, rep: Report, tier: str = "quick") -> None:
     rep.assume("the rating objects passed in are pairwise distinct objects")
     rep.trust("abstract semantics of isinstance, len, truthiness, iteration and implicit TypeError of CPython (osv/ai)")
     rep.trust("own name/callee resolver")
-    results = parallel_map(_model_job, [(i, p) for i in range(len(roles)) for p in range(NPARTS)])
+    results = parallel_map(_model_job, [(i, p, tier == "thorough") for i in range(len(roles)) for p in range(NPARTS)])
     seen = set()
     for lst in results:
         for d in lst:
